@@ -1,5 +1,6 @@
 import FcpptModel.Prelude.Proto
 import FcpptModel.Spec.C12
+import FcpptModel.Model.C12.Grammar
 /-!
 Driver for C12.  `K` is the character kind (`c` = char, codes 0..255; `w` = wchar_t, codes
 0..1114111), `TEXT` a comma separated list of character codes (`-` = empty), `FA` the read budget
@@ -12,10 +13,12 @@ History lines (state = the current stream and the saved positions):
 * `get` / `pos` / `set J`       — get_char / get_position (saved) / set_position(saved[J])
 * `setraw OFF L C` / `setraw OFF -` — set_position of a fabricated position (outside the property's
                                   guard; exercises the seekg failure path and the absent location)
+* `gpar SK GR`                 — `phrase_parse(GR, stream, SK)` on the current stream, every basic_stream call recorded
 * `char` / `lit C` / `cset CS` / `slit C` / `scset CS` — `fcppt::parse::parse` of basic_char /
                                   basic_literal / basic_char_set, `skipper::run` of the skippers
 
-Each answers one observation `<op>=<value>/<eof><fail><bad>`.
+Each answers one observation `<op>=<value>/<eof><fail><bad>@<line>:<col>` — the istream state bits and
+the stream's stored location after the operation.
 
 Stateless lines:
 
@@ -26,6 +29,19 @@ Stateless lines:
 * `seqs K TEXT FA M`            — digest of `hist` over all op sequences of length ≤ M
 * `perr K TEXT FA OPS P ARG`    — history OPS, then parser P (`char|lit|cset|slit|scset`) with ARG,
                                   then get_position
+
+Clients of get_position / set_position (`Model/C12/Grammar.lean`).  `GR` / `SK` are grammars /
+skippers in prefix notation, tokens separated by `.`: `any | lit:C | cset:CS | str:S | seq | alt | opt |
+rep | plus | not | fatal | k1 | k2` and `eps | space | lit:C | cset:CS | seq | rep` (repetition bodies must consume).
+
+* `gp K TEXT FA OPS SK GR`      — history OPS, then `phrase_parse(GR, stream, SK)` over a stream that
+                                  records every basic_stream call: result skeleton, every call with its
+                                  answer, state bits and stored location, then `| pos get`
+* `gx K L FA SK GR`             — digest of `gp` over all texts of length L, started after k = 0 … L+1 reads
+* `ge K E TEXT FA N SK GR`      — entry point E (`p` phrase_parse_stream, `e` parse_stream, `g`
+                                  grammar_parse_stream) on an istream from which N characters were read
+                                  directly before: result, state bits, get index
+* `poseq K A B` / `posout K A`  — `operator==` / `operator<<` of positions `OFF@L:C` | `OFF@-` and their locations
 -/
 namespace Fcppt.C12.Drv
 open Fcppt.Proto
@@ -33,6 +49,10 @@ open Fcppt.Proto
 /-! ### rendering -/
 
 def flagsStr (s : IStream) : String := "/" ++ b01 s.eof ++ b01 s.fail ++ b01 s.bad
+
+/-- flags and the stored location (`stream::location_`, read by the harness without going through
+    `get_position`) -/
+def stateStr (s : Stream) : String := flagsStr s.is ++ s!"@{s.loc.line}:{s.loc.col}"
 
 def posStr (p : Pos) : String :=
   match p.loc with
@@ -42,7 +62,7 @@ def posStr (p : Pos) : String :=
 def opTag : Op → String
   | .get => "g" | .pos => "p" | .set _ => "s"
 
-def obsStr (op : Op) (o : Obs) (s : IStream) : String :=
+def obsStr (op : Op) (o : Obs) (s : Stream) : String :=
   let v := match o with
     | .ch (some c) => toString c
     | .ch none => "none"
@@ -50,14 +70,14 @@ def obsStr (op : Op) (o : Obs) (s : IStream) : String :=
     | .ok => "ok"
     | .exc => "exc"
     | .noSlot => "noslot"
-  opTag op ++ "=" ++ v ++ flagsStr s
+  opTag op ++ "=" ++ v ++ stateStr s
 
 def mix (h : UInt64) (v : Nat) : UInt64 := (h ^^^ v.toUInt64) * 1099511628211
 
 def flagsNum (s : IStream) : Nat :=
   16 + (if s.eof then 1 else 0) + (if s.fail then 2 else 0) + (if s.bad then 4 else 0)
 
-def mixObs (h : UInt64) (o : Obs) (s : IStream) : UInt64 :=
+def mixObs (h : UInt64) (o : Obs) (s : Stream) : UInt64 :=
   let h := match o with
     | .ch (some c) => mix (mix h 1) c
     | .ch none => mix h 2
@@ -68,19 +88,19 @@ def mixObs (h : UInt64) (o : Obs) (s : IStream) : UInt64 :=
       | none => mix (mix (mix (mix h 4) p.off.toNat) 0) 0
     | .ok => mix h 5
     | .noSlot => mix h 6
-  mix h (flagsNum s)
+  mix (mix (mix h (flagsNum s.is)) s.loc.line) s.loc.col
 
 /-- run a history, digesting every observation -/
 def runDigest (h0 : UInt64) (st : HState) (ops : List Op) : UInt64 :=
   (ops.foldl (fun (acc : UInt64 × HState) op =>
     let (st', o) := step acc.2 op
-    (mixObs acc.1 o st'.s.is, st')) (h0, st)).1
+    (mixObs acc.1 o st'.s, st')) (h0, st)).1
 
 /-- run a history, rendering every observation -/
 def runText (st : HState) (ops : List Op) : HState × List String :=
   let r := ops.foldl (fun (acc : HState × List String) op =>
     let (st', o) := step acc.1 op
-    (st', obsStr op o st'.s.is :: acc.2)) (st, [])
+    (st', obsStr op o st'.s :: acc.2)) (st, [])
   (r.1, r.2.reverse)
 
 /-! ### the fixed scripts -/
@@ -168,13 +188,171 @@ def runParser (k : String) (p : String) (arg : String) (s : Stream) : Option (St
     | none => none
   else none
 
+/-! ### grammars -/
+
+def splitColon (tok : String) : String × Option String :=
+  match tok.splitOn ":" with
+  | [n] => (n, none)
+  | [n, a] => (n, some a)
+  | _ => ("", none)
+
+def parseSk (k : String) : Nat → List String → Option (Sk × List String)
+  | 0, _ => none
+  | _, [] => none
+  | f + 1, tok :: rest =>
+    match splitColon tok with
+    | ("eps", none) => some (.eps, rest)
+    | ("space", none) => some (Sk.space, rest)
+    | ("lit", some a) =>
+      match parseText k a with
+      | some [c] => some (.lit c, rest)
+      | _ => none
+    | ("cset", some a) => (parseText k a).map fun cs => (.cset cs, rest)
+    | ("seq", none) => do
+      let (l, rest) ← parseSk k f rest
+      let (r, rest) ← parseSk k f rest
+      pure (.seq l r, rest)
+    | ("rep", none) => do
+      let (b, rest) ← parseSk k f rest
+      pure (.rep b, rest)
+    | _ => none
+
+def parseP (k : String) : Nat → List String → Option (P × List String)
+  | 0, _ => none
+  | _, [] => none
+  | f + 1, tok :: rest =>
+    let one (c : P → P) : Option (P × List String) := do
+      let (b, rest) ← parseP k f rest
+      pure (c b, rest)
+    let two (c : P → P → P) : Option (P × List String) := do
+      let (l, rest) ← parseP k f rest
+      let (r, rest) ← parseP k f rest
+      pure (c l r, rest)
+    match splitColon tok with
+    | ("any", none) => some (.any, rest)
+    -- the two fixed grammars the harness builds with children held by value / by unique_ptr
+    | ("k1", none) => some (.seq (.rep (.alt (.lit 97) (.lit 10))) (.not .any), rest)
+    | ("k2", none) => some (.seq (.opt (.lit 97)) (.plus (.cset [97, 10])), rest)
+    | ("lit", some a) =>
+      match parseText k a with
+      | some [c] => some (.lit c, rest)
+      | _ => none
+    | ("cset", some a) => (parseText k a).map fun cs => (.cset cs, rest)
+    | ("str", some a) => (parseText k a).map fun cs => (.str cs, rest)
+    | ("seq", none) => two .seq
+    | ("alt", none) => two .alt
+    | ("opt", none) => one .opt
+    | ("rep", none) => one .rep
+    | ("plus", none) => one .plus
+    | ("not", none) => one .not
+    | ("fatal", none) => one .fatal
+    | _ => none
+
+def parseGrammar (k sk gr : String) : Option (Sk × P) := do
+  let st := sk.splitOn "."
+  let gt := gr.splitOn "."
+  if st.length > 200 ∨ gt.length > 200 then none
+  let (s, r1) ← parseSk k (st.length + 1) st
+  let (p, r2) ← parseP k (gt.length + 1) gt
+  if r1.isEmpty ∧ r2.isEmpty ∧ s.wf ∧ p.wf then some (s, p) else none
+
+def atomStr : Atom → String
+  | .eof => "E"
+  | .exp (some l) => s!"L{l.line}:{l.col}"
+  | .exp none => "X"
+  | .not => "N"
+  | .lb => "{"
+  | .or => "|"
+  | .rb => "}"
+  | .exc => "P"
+
+def resStr : R → String
+  | .ok () => "ok"
+  | .error e =>
+    (if e.fatal then "fatal:" else "fail:") ++
+      (if e.atoms.isEmpty then "-" else ",".intercalate (e.atoms.map atomStr))
+
+def atomCode : Atom → Nat
+  | .eof => 69 | .exp (some _) => 76 | .exp none => 88 | .not => 78 | .lb => 123 | .or => 124 | .rb => 125
+  | .exc => 80
+
+def mixRes (h : UInt64) : R → UInt64
+  | .ok () => mix (mix h 65) 99
+  | .error e =>
+    let h := mix h (if e.fatal then 67 else 66)
+    let h := e.atoms.foldl (fun h a =>
+      let h := mix h (atomCode a)
+      match a with
+      | .exp (some l) => mix (mix h l.line) l.col
+      | _ => h) h
+    mix h 99
+
+def evTag : EvOp → Op
+  | .get => .get | .pos => .pos | .set _ => .set 0
+
+def evStr (e : Ev) : String :=
+  match e.op with
+  | .set p => "s[" ++ posStr p ++ "]" ++ ((obsStr (.set 0) e.obs e.s).drop 1).toString
+  | o => obsStr (evTag o) e.obs e.s
+
+def mixEv (h : UInt64) (e : Ev) : UInt64 :=
+  let h := match e.op with
+    | .get => mix h 32
+    | .pos => mix h 33
+    | .set p =>
+      match p.loc with
+      | some l => mix (mix (mix (mix h 34) p.off.toNat) l.line) l.col
+      | none => mix (mix (mix (mix h 34) p.off.toNat) 0) 0
+  mixObs h e.obs e.s
+
+structure GRun where
+  res : R
+  log : List Ev          -- oldest first
+  post : List (Op × Obs × Stream)
+
+/-- history `pre`, then `phrase_parse` over the traced stream, then `pos`, `get` -/
+def runTraced (sk : Sk) (p : P) (t : List Ch) (fa : Option Nat) (pre : List Op) : GRun :=
+  let st := (run (HState.open t fa) pre).1
+  let (x, r) := TS.phrase p sk { s := st.s, log := [] }
+  let h1 := step { s := x.s, saved := [] } .pos
+  let h2 := step h1.1 .get
+  { res := r, log := x.log.reverse, post := [(.pos, h1.2, h1.1.s), (.get, h2.2, h2.1.s)] }
+
+def GRun.str (g : GRun) : String :=
+  " ".intercalate (["r=" ++ resStr g.res] ++ g.log.map evStr ++ ["|"] ++ g.post.map fun (o, b, s) => obsStr o b s)
+
+def GRun.mix (h : UInt64) (g : GRun) : UInt64 :=
+  let h := mixRes h g.res
+  let h := g.log.foldl mixEv h
+  g.post.foldl (fun h (_, b, s) => mixObs h b s) h
+
+/-- `N` direct `istream::get()` calls -/
+def rawGets : Nat → IStream → IStream
+  | 0, is => is
+  | n + 1, is => rawGets n is.get.1
+
+def parsePosVal (s : String) : Option Pos :=
+  match s.splitOn "@" with
+  | [o, l] =>
+    match o.toNat? with
+    | none => none
+    | some off =>
+      if l = "-" then some ⟨off, none⟩
+      else match l.splitOn ":" with
+        | [a, b] =>
+          match a.toNat?, b.toNat? with
+          | some a, some b => some ⟨off, some ⟨a, b⟩⟩
+          | _, _ => none
+        | _ => none
+  | _ => none
+
 /-! ### the handler -/
 
 abbrev DState := Option (String × HState)     -- kind, history state
 
 def obs1 (st : HState) (op : Op) : HState × String :=
   let (st', o) := step st op
-  (st', obsStr op o st'.s.is)
+  (st', obsStr op o st'.s)
 
 def handle (d : DState) (toks : List String) : DState × String :=
   match toks with
@@ -208,14 +386,23 @@ def handle (d : DState) (toks : List String) : DState × String :=
     | some (k, st), some off, some loc =>
       let (s', r) := st.s.setPosition { off := off, loc := loc }
       let v := match r with | .ok () => "ok" | .error _ => "exc"
-      (some (k, { st with s := s' }), "s=" ++ v ++ flagsStr s'.is)
+      (some (k, { st with s := s' }), "s=" ++ v ++ stateStr s')
     | none, some _, some _ => (d, "no-stream")
     | _, _, _ => (d, "bad-op")
+  | ["gpar", sk, gr] =>
+    match d with
+    | some (k, st) =>
+      match parseGrammar k sk gr with
+      | some (s, p) =>
+        let (st', r, log) := st.phrase p s
+        (some (k, st'), " ".intercalate (["r=" ++ resStr r] ++ log.map evStr) ++ " |" ++ stateStr st'.s)
+      | none => (d, "bad-op")
+    | none => (d, "no-stream")
   | [p, arg] =>
     match d with
     | some (k, st) =>
       match runParser k p arg st.s with
-      | some (s', r) => (some (k, { st with s := s' }), "r=" ++ r ++ flagsStr s'.is)
+      | some (s', r) => (some (k, { st with s := s' }), "r=" ++ r ++ stateStr s')
       | none => (d, "bad-op")
     | none => if ["char", "lit", "cset", "slit", "scset"].contains p then (d, "no-stream") else (d, "bad-op")
   | ["hist", k, text, fa, ops] =>
@@ -257,9 +444,48 @@ def handle (d : DState) (toks : List String) : DState × String :=
       | some (s', r) =>
         let (st', o) := obs1 { st with s := s' } .pos
         let _ := st'
-        (d, "r=" ++ r ++ flagsStr s'.is ++ " " ++ o)
+        (d, "r=" ++ r ++ stateStr s' ++ " " ++ o)
       | none => (d, "bad-op")
     | _, _, _ => (d, "bad-op")
+  | ["gp", k, text, fa, ops, sk, gr] =>
+    match parseGrammar k sk gr, parseText k text, parseFA fa, parseOps ops with
+    | some (s, p), some t, some f, some ops => (d, (runTraced s p t f ops).str)
+    | _, _, _, _ => (d, "bad-op")
+  | ["gx", k, l, fa, sk, gr] =>
+    match parseGrammar k sk gr, l.toNat?, parseFA fa with
+    | some (s, p), some l, some f =>
+      if l ≤ 8 then
+        let h := (allTexts l).foldl (fun h t =>
+          (List.range (l + 2)).foldl (fun h n => (runTraced s p t f (List.replicate n .get)).mix h) h) fnvInit
+        (d, "D " ++ hex64 h)
+      else (d, "bad-op")
+    | _, _, _ => (d, "bad-op")
+  | ["ge", k, e, text, fa, n, sk, gr] =>
+    match parseGrammar k sk gr, parseText k text, parseFA fa, n.toNat? with
+    | some (s, p), some t, some f, some n =>
+      if (e = "p" ∨ e = "g" ∨ (e = "e" ∧ sk = "eps")) ∧ n ≤ 1000 then
+        let (x, r) := IStream.phraseStream p s (rawGets n (IStream.open t f))
+        (d, "r=" ++ resStr r ++ flagsStr x.s.is ++ s!" at={x.s.is.idx}")
+      else (d, "bad-op")
+    | _, _, _, _ => (d, "bad-op")
+  | ["poseq", k, a, b] =>
+    match kindMax k, parsePosVal a, parsePosVal b with
+    | some _, some a, some b =>
+      let leq := match a.loc, b.loc with
+        | some x, some y => b01 (x.eq y)
+        | _, _ => "-"
+      (d, "eq=" ++ b01 (a.eq b) ++ b01 (b.eq a) ++ " leq=" ++ leq ++ " self=" ++ b01 (a.eq a))
+    | _, _, _ => (d, "bad-op")
+  | ["posout", k, a] =>
+    match kindMax k, parsePosVal a with
+    | some _, some a =>
+      (d, "out=" ++ a.out ++
+        (match a.loc with
+         | some l =>
+           let m : Loc := ⟨l.line + 1, 7⟩
+           " loc=" ++ l.out ++ " mut=" ++ m.out ++ " orig=" ++ l.out ++ (if m.eq l then " same" else " differ")
+         | none => ""))
+    | _, _ => (d, "bad-op")
   | _ => (d, "bad-op")
 
 def main : IO Unit := Proto.runState (none : DState) handle
